@@ -58,6 +58,10 @@ theorem P_pos : 0 < Gen.FP_P := by decide
 theorem B_pos : 1 ≤ Gen.FP_B := by decide
 theorem coprime_B_P : Nat.Coprime Gen.FP_B Gen.FP_P := by decide +kernel
 theorem coprime_B1_P : Nat.Coprime (Gen.FP_B - 1) Gen.FP_P := by decide +kernel
+/-- the base a table combines its columns with: prime to P, and so is its difference from the column base -/
+theorem coprime_BT_P : Nat.Coprime Gen.FP_BT Gen.FP_P := by decide +kernel
+theorem B_le_BT : Gen.FP_B ≤ Gen.FP_BT := by decide
+theorem coprime_BTmB_P : Nat.Coprime (Gen.FP_BT - Gen.FP_B) Gen.FP_P := by decide +kernel
 
 /-! #### notices every change -/
 
@@ -73,6 +77,17 @@ theorem write_changes (hs : List Int) (i : Nat) (y : Int) (hi : i < hs.length)
   conv => rhs; rw [hself]
   exact H_set_ne Gen.FP_P Gen.FP_B coprime_B_P _ _ _ _ hne
 
+/-- the same for the combination of column fingerprints into a table fingerprint (base `BT`) -/
+theorem comb_changes (fps : List Int) (i : Nat) (y : Int) (hi : i < fps.length)
+    (hne : ¬ (Gen.FP_P : Int) ∣ y - fps[i]) : fpComb (fps.set i y) ≠ fpComb fps := by
+  have hset : fps.set i y = fps.take i ++ y :: fps.drop (i + 1) := by
+    rw [List.set_eq_take_append_cons_drop, if_pos hi]
+  have hself : fps = fps.take i ++ fps[i] :: fps.drop (i + 1) := by
+    rw [List.getElem_cons_drop, List.take_append_drop]
+  rw [hset]
+  conv => rhs; rw [hself]
+  exact H_set_ne Gen.FP_P Gen.FP_BT coprime_BT_P _ _ _ _ hne
+
 /-- fingerprints are reduced modulo P -/
 theorem fp_range (hs : List Int) : 0 ≤ fpVec hs ∧ fpVec hs < Gen.FP_P :=
   H_range _ _ (by have := P_pos; unfold FP.P; omega) hs
@@ -84,7 +99,7 @@ theorem table_changes (cols : List (List Int)) (j : Nat) (c' : List Int) (hj : j
   unfold fpTab Htab
   rw [List.map_set]
   have hj' : j < (cols.map (H P B)).length := by simpa using hj
-  have := write_changes (cols.map (H FP.P FP.B)) j (H FP.P FP.B c') hj' (by
+  have := comb_changes (cols.map (H FP.P FP.B)) j (H FP.P FP.B c') hj' (by
     simp only [List.getElem_map]
     intro hd
     have r1 := fp_range c'
@@ -105,6 +120,20 @@ theorem table_changes (cols : List (List Int)) (j : Nat) (c' : List Int) (hj : j
     subst this
     apply hne; omega)
   exact this
+
+/-- **one table-level write that exchanges two cells of different columns is noticed too** — in particular the exchange
+    along an anti-diagonal (cell below-left with cell above-right), which is what transposing a square table does and
+    what the fingerprint could not see as long as tables combined their columns with the columns' own base -/
+theorem antidiagonal_exchange_changes (pa sa pb sb : List Int) (x y : Int) (hlen : sb.length = sa.length + 1)
+    (hxy : ¬ (Gen.FP_P : Int) ∣ y - x) :
+    fpTab [pa ++ y :: sa, pb ++ x :: sb] ≠ fpTab [pa ++ x :: sa, pb ++ y :: sb] :=
+  Htab_antidiag_ne Gen.FP_P Gen.FP_B Gen.FP_BT coprime_B_P coprime_BTmB_P B_le_BT pa sa pb sb x y hlen hxy
+
+/-- with the columns' own base the anti-diagonal exchange is invisible (the defect, kept as a proved counterexample):
+    a square table and its transpose collide -/
+theorem same_base_transpose_collides :
+    Htab P B B [[1, 2], [3, 4]] = Htab P B B [[1, 3], [2, 4]] ∧ fpTab [[1, 2], [3, 4]] ≠ fpTab [[1, 3], [2, 4]] := by
+  decide +kernel
 
 /-- **element order matters**: swapping two neighbours whose hashes differ (mod P) changes the fingerprint -/
 theorem order_matters (pre post : List Int) (a b : Int) (hab : ¬ (Gen.FP_P : Int) ∣ a - b) :
